@@ -1,6 +1,7 @@
 package main
 
 import (
+	"verif/harness/internal/c01"
 	"verif/harness/internal/c16"
 	"verif/harness/internal/c08"
 	"verif/harness/internal/c04"
@@ -19,6 +20,8 @@ import (
 )
 
 func init() {
+	checks["C01"] = c01.Run
+	workers["c01"] = c01.Worker
 	checks["C16"] = c16.Run
 	workers["c16"] = c16.Worker
 	checks["C08"] = c08.Run
